@@ -16,7 +16,7 @@ import catalogue
 HERE = os.path.dirname(os.path.abspath(__file__))
 
 
-def gen_cpp(cat, outdir, per_tu=3, sw_every=0):
+def gen_cpp(cat, outdir, per_tu=3, sw_every=0, sw_limit=10**9):
     os.makedirs(outdir, exist_ok=True)
     files = []
     for i in range(0, len(cat), per_tu):
@@ -25,7 +25,7 @@ def gen_cpp(cat, outdir, per_tu=3, sw_every=0):
             f.write('#include "alg_rt.hpp"\n')
             for j, s in enumerate(cat[i:i + per_tu]):
                 f.write("// %s\nALG_SHAPE(%d, %s)\n" % (s["spec"]["text"], s["spec"]["id"], s["cpp"]))
-                if sw_every and (i + j) % sw_every == 0 and not any(k in ("sched", "lvwss") for k in s["spec"]["kind"]):
+                if sw_every and (i + j) % sw_every == 0 and (i + j) < sw_limit and not any(k in ("sched", "lvwss") for k in s["spec"]["kind"]):
                     f.write("ALG_SHAPE_SW(%d)\n" % s["spec"]["id"])      # sync_wait as the outermost driver
         files.append(p)
     return files
@@ -194,10 +194,13 @@ def run(ctx):
 
     def replay_cfg(bc):
         # ---- build
-        sw_every = (3 if ctx.quick else 1) if prop == "C05" else 0
-        gh = hashlib.sha1(json.dumps([s["cpp"] for s in cat] + [sw_every]).encode()).hexdigest()[:16]
+        # sync_wait needs a sender with a single value type: the outer-driver comparison is built for every third shape of
+        # the curated catalogue (the same shapes in both tiers; random shapes may send several value types)
+        sw_every = 3 if prop == "C05" else 0
+        sw_limit = len(catalogue.curated())
+        gh = hashlib.sha1(json.dumps([s["cpp"] for s in cat] + [sw_every, sw_limit]).encode()).hexdigest()[:16]
         gdir = os.path.join(vlib.VERIF, "_build", "alg_gen_" + gh)
-        files = gen_cpp(cat, gdir, sw_every=sw_every)
+        files = gen_cpp(cat, gdir, sw_every=sw_every, sw_limit=sw_limit)
         exe = vlib.build(ctx, "alg_driver", [os.path.join(HERE, "driver.cpp")] + files,
                          lib=["inplace_stop_token.cpp", "async_stack.cpp", "exception.cpp", "manual_event_loop.cpp"], incs=[HERE], opt="-O0",
                          std=bc["std"], defs=bc["defs"], cxx=bc.get("cxx", "g++"), recover=True)
